@@ -801,6 +801,7 @@ fn parse_simple_expression(
                 // TODO: arguably this should be done in the lexer.
                 if token.text == "{"
                     && prev_token.position.end_offset == token.position.start_offset
+                    && !KEYWORDS.contains(&prev_token.text)
                 {
                     return parse_struct_literal(tokens, id_gen, diagnostics);
                 }
